@@ -751,9 +751,13 @@ func runLoop(c *runCtx) {
 				sortNow = !sortNow
 			}
 			if op.ChangeNth {
-				if curNth == nil {
+				// none -> first field -> second field -> none: what an item's cached tokens were cut for changes
+				switch {
+				case curNth == nil:
 					curNth = []Range{newRange(1, 1)}
-				} else {
+				case curNth[0] == newRange(1, 1):
+					curNth = []Range{newRange(2, 2)}
+				default:
 					curNth = nil
 				}
 				pc = map[string]*Pattern{}
